@@ -18,7 +18,9 @@ HEADER = 'From Coq Require Import QArith String.\nRequire Import V.H5.Naming V.H
 DSETS = ['Raw', 'Raw_Data']
 TOOLS = ['Fit', 'SHO_Fit', 'Fit2', 'Fit_2']       # 'Fit_2' + index reads 'Fit' + '_2_000'
 PARMS = [{'k1': 1, 'k2': [1, 2, 3]}, {'k1': 2, 'k2': [1, 2, 3]}, {'k1': 1, 'k2': [1, 2]}, {'k1': 1, 'k2': [1, 2, 3], 'k3': 'ab'},
-         {'k1': 1.0, 'k2': [1, 2, 3]}, {'k1': 1}]
+         {'k1': 1.0, 'k2': [1, 2, 3]}, {'k1': 1},
+         # an unused optional setting (None) listed BEFORE the parameters that matter: it is ignored, they are not
+         {'k0': None, 'k1': 1, 'k2': [1, 2, 3]}, {'k0': None, 'k1': 2, 'k2': [1, 2, 3]}]
 
 
 def cs(s):
@@ -162,7 +164,12 @@ def run(ctx, build):
                 d2.attrs[k] = v
             mains[DSETS[1]] = d2
             target = ft if separate else None
-            this_d, this_t, this_p = rng.choice(DSETS), rng.choice(TOOLS), rng.choice(PARMS[:4])
+            same_file_group = (not separate) and (hi % 5 == 4)
+            if same_file_group:
+                # results kept in ANOTHER GROUP OF THE SOURCE FILE: that location, not the source's neighbourhood, holds the history
+                target = f.create_group('Analysis')
+                hist['same_file_other_group_target'] = hist.get('same_file_other_group_target', 0) + 1
+            this_d, this_t, this_p = rng.choice(DSETS), rng.choice(TOOLS), rng.choice(PARMS[:4] + PARMS[-2:])
             groups = []
             # the first histories are fixed designs (independent of the seed), each a list of (tool or None = this tool, progress):
             # exactly one matching group that is partial / complete / over-long / malformed, judged with and without override;
@@ -174,10 +181,13 @@ def run(ctx, build):
                                                ('status_malformed_values', [2] * (N // 2 + 1) + [0] * (N - N // 2 - 1))) for _ in (0, 1)]
             designs += [[(None, near)], [(None, near)],
                         [(None, ('legacy', N // 2)), (None, first)], [(None, first), (None, ('legacy', N // 2))],
-                        [('Fit_2', ('complete', [1] * N, None))], [('Fit_2', first)]]
+                        [('Fit_2', ('complete', [1] * N, None))], [('Fit_2', first)],
+                        [(None, ('complete', [1] * N, None), PARMS[-1])], [(None, first, PARMS[-1])]]
             forced = hi < len(designs)
-            if forced and hi >= 12:
+            if forced and hi in (12, 13):
                 this_t = 'Fit'
+            if forced and hi in (14, 15):
+                this_p = PARMS[-2]              # the stored groups differ from it in k1 only, behind the None entry
             plan = designs[hi] if forced else [None] * rng.randint(0, 5)
             for item in plan:
                 r = rng.random()
@@ -188,6 +198,8 @@ def run(ctx, build):
                 if forced:
                     tool = item[0] or this_t
                     prog = item[1]
+                    if len(item) > 2:
+                        parms = item[2]
                 hist['progress_kinds'][prog[0]] = hist['progress_kinds'].get(prog[0], 0) + 1
                 name, status, lp = make_group(rng, mains[dn], N, M, tool, parms, target, prog)
                 groups.append({'name': name, 'dset': dn, 'tool': tool, 'parms': parms, 'progress': prog, 'status': status, 'last_pixel': lp})
@@ -200,7 +212,10 @@ def run(ctx, build):
                 groups.append({'name': name, 'dset': 'Measurement_001/' + this_d, 'tool': this_t, 'parms': this_p, 'progress': prog,
                                'status': status, 'last_pixel': lp})
                 hist['twin_source_in_separate_target'] = hist.get('twin_source_in_separate_target', 0) + 1
-            parent = ft if separate else grp0
+            parent = ft if separate else (target if same_file_group else grp0)
+            if same_file_group:
+                # a complete result of the very same process BESIDE the source: it is not in the target location and must not count
+                make_group(rng, mains[this_d], N, M, this_t, this_p, None, ('complete', [1] * N, None))
             # seeding a later group constructs a Process, which upgrades every matching legacy group that already exists
             # (known finding KF-C05-CTOR-UPGRADES-LEGACY): put the history back to what was designed
             for g in groups:
@@ -213,7 +228,7 @@ def run(ctx, build):
             hist['histories'] += 1
             hist['separate_target'] += int(separate)
             hist['override'] += int(override)
-            desc = {'N': N, 'this': (this_d, this_t, {k: repr(v) for k, v in this_p.items()}), 'override': override, 'separate_target': separate,
+            desc = {'N': N, 'this': (this_d, this_t, {k: repr(v) for k, v in this_p.items()}), 'override': override, 'separate_target': separate, 'target_is_another_group_of_the_source_file': same_file_group,
                     'groups': [{k: (repr(v) if k in ('parms',) else v) for k, v in g.items() if k != 'status'} for g in groups]}
             # ---------------- the real thing
             try:
@@ -332,6 +347,8 @@ def run(ctx, build):
 def c16_equal(a, b):
     """exact equality of two parameter dictionaries as the property means it (every requested parameter equals the stored one)"""
     for k, v in b.items():
+        if v is None:
+            continue                    # "entries whose value is None are ignored" (C16)
         if k not in a:
             return False
         x = a[k]
